@@ -6,6 +6,7 @@ import (
 	"encoding/json"
 	"fmt"
 	"reflect"
+	"strings"
 
 	"github.com/launchdarkly/go-jsonstream/v3/jreader"
 	"github.com/launchdarkly/go-jsonstream/v3/jwriter"
@@ -148,6 +149,21 @@ func genCodecDoc(r *Rng, p *Profile, isFlag bool) (*J, string) {
 	}
 	w.decorate(doc, isFlag)
 	class := "plain"
+	if r.P(0.012) {
+		// a string that ends in a backslash, and after it a string holding more open brackets than the byte entry points allow
+		// nesting levels: neither is structure, the document is flat
+		doc.Replace("key", JStr(r.Pick([]string{"k\\", "C:\\temp\\", "\\\\", "a\\\"\\", "é\\"})))
+		brackets := JStr(strings.Repeat(r.Pick([]string{"[", "{", "[{", "[\\"}), 10001+r.Intn(40)))
+		target := "included"
+		if isFlag {
+			target = "variations"
+		}
+		if a := doc.Get(target); a != nil && a.K == 'a' {
+			a.A = append(a.A, brackets)
+		} else {
+			doc.Replace(target, JArr(brackets))
+		}
+	}
 	if r.P(0.6) {
 		w.noise(doc, 0)
 		class = "noised"
